@@ -297,7 +297,7 @@ def gen_probes(ctx, per_right, per_wrong):
 
 
 INDEXES = ["1..2", "2..4", "0..11", "0..12", "-1..-3", "5..5", "1..-1", "-9223372036854775808..2"]
-OPS2 = ["+", "-", "*", "/", "%", "&", "|", "^", "<<", ">>", "<", ">", "<=", ">=", "==", "!=", "and", "or", ".."]
+OPS2 = ["+", "-", "*", "/", "%", "&", "|", "^", "<<", ">>", "<", ">", "<=", ">=", "==", "!=", "&&", "||", ".."]
 OPS1 = ["-", "!", "~"]
 PROPS = ["len", "context", "nope", "call", "next", "new"]
 
@@ -330,7 +330,7 @@ def gen_op_snippets(ctx, n2):
     kinds = sorted(BY_KIND)
     for k1 in kinds:
         for k2 in kinds:
-            for o in rng.sample(OPS2, 6):
+            for o in rng.sample(OPS2, 4 if n2 < 1000 else 12):
                 out.append((rng.choice(BY_KIND[k1]), rng.choice(BY_KIND[k2]), tmpl % ("(r %s a0)" % o)))
     for _ in range(n2):
         out.append((rng.choice(POOL), rng.choice(POOL), tmpl % ("(r %s a0)" % rng.choice(OPS2))))
@@ -568,7 +568,7 @@ var v_fdone = Fiber.new(|| 1); v_fdone.call(); var v_mod = pm; var v_stop = [].i
 METHODS = ["len", "push", "pop", "iter", "next", "has_key", "get", "insert", "remove", "clear", "keys", "values", "items", "call", "has_finished",
            "derives", "new", "yield", "map", "filter", "collect", "reduce", "m", "two", "bad", "gs", "gbad", "mk", "from", "find", "replace", "split",
            "starts_with", "to_num", "to_bytes", "char_byte_index", "count_chars", "from_utf8", "from_ascii", "from_code_points", "context", "x", "f", "nope"]
-BINOPS = ["+", "-", "*", "/", "%", "&", "|", "^", "<<", ">>", "<", ">", "<=", ">=", "==", "!=", "and", "or"]
+BINOPS = ["+", "-", "*", "/", "%", "&", "|", "^", "<<", ">>", "<", ">", "<=", ">=", "==", "!=", "&&", "||"]
 STORE_METHODS = {"push", "insert"}
 
 
@@ -633,7 +633,7 @@ class ProgGen:
         if k < 0.95:
             return "Fiber.new(%s)" % rng.choice(["|| %s" % self.atom(), "|x| x", self.atom()])
         if k < 0.97:
-            return "(|x| %s)(%s)" % (self.expr(d + 1), self.atom())
+            return "(|x| (%s))(%s)" % (self.expr(d + 1), self.atom())
         return rng.choice(["rec(0)", "thrower(%s)" % self.atom(), "Fiber.yield(%s)" % self.atom(), "v_fsus.call(%s)" % self.atom(),
                            "v_fnew.call(%s)" % self.atom(), "v_der.m()", "v_der.bad()", "v_der.gs()", "v_der.gbad()", "It3.new().collect()", "v_mi.collect()"])
 
@@ -937,7 +937,7 @@ def run(ctx):
     log('[C02] operator probes: %d in %.1fs' % (len(ops), time.time() - t0))
     t0 = time.time()
     # ---- (b) ill-typed programs: oracle impl == S ----
-    nprog = 500 if quick else 3000
+    nprog = 400 if quick else 3000
     gen = ProgGen(rng)
     progs = [gen.program(rng.randint(8, 30)) for _ in range(nprog)]
     precs = run_confirmed(ctx, binary, [mods_line(s) for s in progs], "debug")
@@ -945,7 +945,7 @@ def run(ctx):
     errk = {}
     pviol = []
     for s, r in zip(progs, precs):
-        k = r.result[0]
+        k = r.result[0] if r.result[0] != "err" else "err:" + r.result[1]
         pres[k] = pres.get(k, 0) + 1
         for o in r.output:
             if o.startswith("<class ") and o.endswith("Error>"):
